@@ -45,6 +45,13 @@ Definition DIAG_rx1_channel := Eval vm_compute in
          end))) (zrange 0 (zlen (t_up t) - 1)))) band_configs.
 Print DIAG_rx1_channel.
 
+(* (name, repeater, dwell): a band accepting extra channels whose RX1 rule is not "same channel /
+   same frequency" or whose default uplink / downlink channels differ in frequency at some index
+   (premise of C12_rx1_channel_after_add_channels) *)
+Definition DIAG_extra_channels_aligned := Eval vm_compute in
+  map id_of (filter (fun c => negb (extra_aligned_cfg c)) band_configs).
+Print DIAG_extra_channels_aligned.
+
 (* (name, repeater, dwell, hopping channel number) *)
 Definition DIAG_ping_slot := Eval vm_compute in
   flat_map (fun c => map (fun k => (id_of c, k))
